@@ -23,7 +23,7 @@ def run(ctx, rep):
                     "CPython buffered file I/O and struct.pack (modelled: in-order byte stream, big-endian packing)"]
     rep.assumptions += ["session discipline: a handle open for append is the only open handle (what the lock of C04 enforces)",
                         "creation modes x/w are used only to create the file; reopening uses r/a"]
-    ok, out, where = vlib.build_props(ctx, rep, "C02", extra_targets=["Model/Backend.vo"])
+    ok, out, where = vlib.build_props(ctx, rep, "C02", extra_targets=[])
     work = ctx.sub("ukv")
     path = os.path.join(work, "t.ukv")
     hists = [(h, 1) for h in exhaustive_histories(4 if ctx.thorough else 3)]
